@@ -61,7 +61,7 @@ func genOutboundCap(rng *rand.Rand, idx int) OutboundCapCase {
 }
 
 func phaseCaps(r *mon.Run) {
-	nIn := r.Pick(10, 80)
+	nIn := r.Pick(24, 160)
 	for i := 0; i < nIn; i++ {
 		// the first case of every run is the dedicated reproduction of the
 		// check-then-act window (all attempts pass the admission check before
@@ -72,7 +72,7 @@ func phaseCaps(r *mon.Run) {
 		}
 		runInboundCap(r, c)
 	}
-	nOut := r.Pick(4, 30)
+	nOut := r.Pick(8, 50)
 	for i := 0; i < nOut; i++ {
 		c := genOutboundCap(r.RNG(0xB800+uint64(i)), i)
 		runOutboundCap(r, c)
